@@ -82,7 +82,10 @@ D = "pyhms.demes.abstract_deme.AbstractDeme."
 ghost_fields(**{"$qmc_draws": "int", "$cma_told": "int", "$cma_asked": "int"})
 # engine-private state (operator/optimiser internals, generator draw counters): no specification reads it, every deme may write it
 ENGINE_PRIVATE = [("stds", "True"), ("_archive", "True"), ("_k", "True"), ("$arr", "True"), ("$np_draws", "o == None"),
-                  ("$py_draws", "o == None"), ("$qmc_draws", "True"), ("$cma_told", "True"), ("$cma_asked", "True")]
+                  ("$py_draws", "o == None"), ("$qmc_draws", "True"), ("$cma_told", "True"), ("$cma_asked", "True"),
+                  ("_cost_sign", "True")]
+# the list a local-search deme collects its iterates in (ghost kind 10): private to that deme, no other engine writes it
+LOCAL_PRIVATE = [("$list<ref:Individual>", "field(o, '$kind', 'int') == 10")]
 OWN_FRAME = ENGINE_PRIVATE + [("_active", "o == self"), ("_centroid", "o == self"),
              ("$list<list[list[ref:Individual]]>", "o == self._history"),
              ("_n_evals", "o == self or o == self._problem"), ("$engine_stop", "o == self"),
@@ -94,7 +97,7 @@ macro("DemeRunnable", ["t", "d"], """
 fn(D + "run_metaepoch", abstract=True, params={"tree": "ref:DemeTree"},
    requires=[cl("runnable", "tree != None and DemeRunnable(tree, self)")] + [cl("t_" + c.label, c.text.replace("self", "tree")) for c in struct("self")]
             + [cl("problems", "LevelProblemsWf(tree)")],
-   modifies=OWN_FRAME + USER_PROBLEM_FRAME,
+   modifies=OWN_FRAME + LOCAL_PRIVATE + USER_PROBLEM_FRAME,
    ensures=[cl("one_more_history_entry", "len(self._history) == old(len(self._history)) + 1 and HistShape(self)", tags="C06"),
             cl("recorded_history_kept", "forall(lambda m: imp(0 <= m < old(len(self._history)), self._history[m] == old(self._history[m])))",
                tags="C02 C06"),
@@ -103,7 +106,7 @@ fn(D + "run_metaepoch", abstract=True, params={"tree": "ref:DemeTree"},
 
 # ---- the tree: one metaepoch -----------------------------------------------------------------------------------------
 macro("Stepped", ["t", "d"], "d._active and not (hibernation_on(t) and d._hibernating)")
-RUNME_FRAME = ENGINE_PRIVATE + [("_active", "InTree(self, cast(o, 'ref:AbstractDeme'))"), ("_centroid", "True"),
+RUNME_FRAME = ENGINE_PRIVATE + LOCAL_PRIVATE + [("_active", "InTree(self, cast(o, 'ref:AbstractDeme'))"), ("_centroid", "True"),
                ("$list<list[list[ref:Individual]]>", "kind(o) == 3"), ("_n_evals", "True"), ("$engine_stop", "True"),
                ("$gsc_last", "o == self"), ("$gsc_clock", "o == self"), ("$lsc_last", "True"), ("weights", "o == self._gsc")] + \
               [x for x in USER_PROBLEM_FRAME if x[0] != "_n_evals"]
